@@ -175,10 +175,10 @@ fn c05_o1d_envelope_tid() {
 }
 
 //@ ob: C05.O1e
-//@ rss: 11.9
-//@ time: 463
 //@ tier: thorough
 //@ cap: 1800
+//@ rss: 11.9
+//@ time: 440
 //@ desc: Message::from_serde_message on a get_signed_peers response whose single peers entry has any length 0..=210, with optional nodes of length {0, 26, 27}: total (no panic, no out-of-bounds); accepted iff the entry has exactly 104 bytes and nodes are a multiple of 26
 //@ bounds: entry length symbolic 0..=210 (zero bytes), nodes length from the stated set; token 4 bytes; unwind 6
 //@ stubs: std::time::Instant::now -> symbolic clock
@@ -434,7 +434,7 @@ fn roundtrip(m: Message) -> Result<Message, DecodeMessageError> {
 }
 
 //@ ob: C10.O1b
-//@ tier: thorough
+//@ tier: off
 //@ cap: 3000
 //@ mem: 40
 //@ alone: true
